@@ -57,8 +57,9 @@ pub enum Ep {
 impl Ep {
     async fn build(entry: &str, variant: u64, tpl: &str, stays_pre: bool) -> Result<Ep, String> {
         match entry {
-            "turn_udp" => Ok(Ep::Turn(turn::Ep::build(false).await?)),
-            "turn_tcp" => Ok(Ep::Turn(turn::Ep::build(true).await?)),
+            // second concretisation: a peer is being checked through the relay (permission + bound channel)
+            "turn_udp" => Ok(Ep::Turn(turn::Ep::build(false, variant % 2 == 1).await?)),
+            "turn_tcp" => Ok(Ep::Turn(turn::Ep::build(true, variant % 2 == 1).await?)),
             "dtls_server" => Ok(Ep::Dtls(dtls::Ep::build(false, false, false).await?)),
             // second concretisation of the pre-handshake phase: the client has been through a HelloVerifyRequest
             // ... and of the mid-handshake phase: the server's largest message is being reassembled from fragments
@@ -243,7 +244,7 @@ async fn one_run(ctx: &Ctx, entry: &str, pre: &[Value], ci: usize, tpl: &str, cl
 }
 
 fn has_modes(entry: &str) -> bool {
-    matches!(entry, "sctp" | "ice_tcp" | "ice_udp" | "rtp_transport" | "dtls_client" | "dtls_server" | "pc_rtp")
+    matches!(entry, "sctp" | "ice_tcp" | "ice_udp" | "turn_udp" | "turn_tcp" | "rtp_transport" | "dtls_client" | "dtls_server" | "pc_rtp")
 }
 
 pub async fn run_case(ctx: &Ctx, st: &mut State, ci: usize, c: &Value) -> Value {
